@@ -1,4 +1,4 @@
-import HdModel.Lemmas.Eyeballs
+import HdModel.Lemmas.Eyeballs3
 /-! # C11 — happy-eyeballs attempts are paced, ordered, bounded and meet the deadline
 
 Theorems about `Hd.Eyeballs.run` (mirror of `EyeballSet::finish`) for **every** list of scripted
@@ -55,6 +55,88 @@ theorem C11_starts_before_finish (c : Cfg) (atts : List Attempt) (t : Nat)
   intro st hst
   have hp : (run c atts).2.starts <+: _ := trim_prefix atts (run c atts).1 _
   exact (run_inv1 c atts).2.2 t ht st (hp.subset hst)
+
+theorem pacedFrom_split {c : Cfg} {n : Nat} {f : List (Nat × Nat)} (prev l1 l2 : List (Nat × Nat)) :
+    PacedFrom c n f prev (l1 ++ l2) ↔ PacedFrom c n f prev l1 ∧ PacedFrom c n f (prev ++ l1) l2 := by
+  induction l1 generalizing prev with
+  | nil => simp [PacedFrom]
+  | cons x l1 ih =>
+    simp only [List.cons_append, PacedFrom]
+    rw [ih (prev ++ [x])]
+    simp [List.append_assoc, and_assoc]
+
+theorem final_paced (c : Cfg) (atts : List Attempt) :
+    Paced c atts.length (run c atts).2.fails (run c atts).2.starts ∧
+    FailStart atts.length (run c atts).2.fails
+      (loop c atts (2 * atts.length + 2) (startN atts (c.conc.getD atts.length) (init atts.length))).2.starts := by
+  have h3 : Inv3 c atts.length (startN atts (c.conc.getD atts.length) (init atts.length)) :=
+    (inv3_startN (c.conc.getD atts.length) (inv3_init c atts.length) rfl (by simp [init]) (by simp [init])).1
+  have := loop_inv3 c atts atts.length (2 * atts.length + 2) _
+    (inv1_startN _ (inv1_init c atts.length)) (inv2_startN _ (inv2_init atts atts.length)) h3
+  refine ⟨?_, this.2⟩
+  obtain ⟨t, ht⟩ := trim_prefix atts (run c atts).1
+    (loop c atts (2 * atts.length + 2) (startN atts (c.conc.getD atts.length) (init atts.length))).2.starts
+  have hp := this.1
+  unfold Paced at hp ⊢
+  rw [← ht, pacedFrom_split] at hp
+  exact hp.1
+
+/-- **C11 (pacing: never earlier, and as soon as the delay has elapsed).** For any two consecutive
+    starts `a`, `b` of a run: `b` happens inside the initial batch, or at the instant nothing is
+    running any more, or at the instant a running attempt fails, or exactly one stagger delay after
+    `a` – and in every case no later than one stagger delay after `a`. -/
+theorem C11_pacing (c : Cfg) (atts : List Attempt) (pre post : List (Nat × Nat)) (a b : Nat × Nat)
+    (h : (run c atts).2.starts = pre ++ a :: b :: post) :
+    Reason c atts.length (run c atts).2.fails (pre ++ [a]) a b ∧
+    (∀ d, c.delay = some d → b.2 ≤ a.2 + d) := by
+  have hp := (final_paced c atts).1
+  unfold Paced at hp
+  rw [h, show pre ++ a :: b :: post = (pre ++ [a]) ++ (b :: post) by simp, pacedFrom_split] at hp
+  have := hp.2.1
+  simpa using this
+
+/-- **C11 (the first attempt starts at once).** -/
+theorem C11_first_at_zero (c : Cfg) (atts : List Attempt) (b : Nat × Nat) (post : List (Nat × Nat))
+    (h : (run c atts).2.starts = b :: post) : b.2 = 0 := by
+  have hp := (final_paced c atts).1
+  unfold Paced at hp
+  rw [h] at hp
+  exact hp.1
+
+/-- **C11 (as soon as a running attempt has failed).** Every failure is answered, at that very
+    instant, by the start of a later candidate – unless all candidates had been started already. -/
+theorem C11_failure_triggers_start (c : Cfg) (atts : List Attempt) :
+    ∀ p ∈ (run c atts).2.fails,
+      (∃ st ∈ (loop c atts (2 * atts.length + 2)
+          (startN atts (c.conc.getD atts.length) (init atts.length))).2.starts, st.2 = p.2 ∧ p.1 < st.1) ∨
+      (∀ i, i < atts.length → ∃ st ∈ (loop c atts (2 * atts.length + 2)
+          (startN atts (c.conc.getD atts.length) (init atts.length))).2.starts, st.1 = i ∧ st.2 ≤ p.2) :=
+  (final_paced c atts).2
+
+/-- **C11 (initial bound).** Before any event is awaited at most `initial_concurrency` attempts
+    (all candidates when it is not configured) have been pushed, all at time 0. -/
+theorem C11_initial_bound (c : Cfg) (atts : List Attempt) :
+    (startN atts (c.conc.getD atts.length) (init atts.length)).starts.length ≤ c.conc.getD atts.length ∧
+    ∀ st ∈ (startN atts (c.conc.getD atts.length) (init atts.length)).starts, st.2 = 0 := by
+  have key : ∀ (k : Nat) (s : St), s.now = 0 → (∀ st ∈ s.starts, st.2 = 0) →
+      (startN atts k s).starts.length ≤ s.starts.length + k ∧ ∀ st ∈ (startN atts k s).starts, st.2 = 0 := by
+    intro k
+    induction k with
+    | zero => intro s _ hz; exact ⟨by simp [startN], by simpa [startN] using hz⟩
+    | succ k ih =>
+      intro s hnow hz
+      unfold startN
+      split
+      · exact ⟨by omega, hz⟩
+      · rename_i i q hq
+        have := ih (start atts { s with queue := q } i) (by simp [start, hnow])
+          (by intro st hst; simp [start] at hst; rcases hst with h | rfl; exact hz st h; exact hnow)
+        refine ⟨?_, this.2⟩
+        have h1 := this.1
+        have hl : (start atts { s with queue := q } i).starts.length = s.starts.length + 1 := by simp [start]
+        rw [hl] at h1; omega
+  have := key (c.conc.getD atts.length) (init atts.length) rfl (by simp [init])
+  simpa [init] using this
 
 /-- Non-vacuity: a run that has a finish time and a deadline (scenario A of DESIGN.md). -/
 example : (run ⟨some 10, some 100, some 1⟩ [⟨some 30, .err⟩, ⟨some 5, .ok⟩]).1 = .ok 1 15 := by decide
